@@ -8,7 +8,10 @@ State of the sanction store (x/sanction/keeper/keys.go:14-24):
 * `perm`  — `0x01<len><addr>`                      permanent sanctions (a set)
 * `temp`  — `0x02<len><addr><prop id, 8 bytes BE>` temporary entries, value 0x01 (sanction) / 0x00
 * `idx`   — `0x03<prop id><len><addr>`             index of `temp` by proposal
-* params  — the two immediate min deposits
+* params  — the two immediate min deposits (coins of any number of denoms)
+The gov side keeps deposits as coins: `MinDeposit` may list several denoms, a proposal's
+`TotalDeposit` has an amount per denom, and the hook compares it with the immediate min deposit
+denom by denom (`reachesMin`).
 `temp`/`idx` are association lists keyed by `(addr, id)`; "the last key under the address
 prefix" (`getLatestTempEntry`, keeper.go:155) is the entry with the greatest id (`latestOf`);
 that the byte order of the keys is the numeric order of ids is `PvModel.SancKeys`.
@@ -92,14 +95,17 @@ structure Cfg where
   govAcct : Addr := "GOV"
   bondPool : Addr := "BOND"
   feeColl : Addr := "FEE"
-  minDeposit : Int := 1000
-  expMinDeposit : Int := 2000
-  /-- floor of the initial deposit (`validateInitialDeposit`, sdk:x/gov/keeper/deposit.go:283) -/
-  initMin : Int := 100
-  initMinExp : Int := 200
-  /-- floor of every deposit (`MinDepositRatio`, deposit.go:96-124) -/
-  depMin : Int := 10
-  depMinExp : Int := 20
+  /-- gov `MinDeposit` / `ExpeditedMinDeposit`: one amount per accepted deposit denom -/
+  minDeposit : Coins := [("stake", 1000)]
+  expMinDeposit : Coins := [("stake", 2000)]
+  /-- floor of the initial deposit, per denom: the min deposit times `MinInitialDepositRatio`
+  (`validateInitialDeposit`, sdk:x/gov/keeper/deposit.go:283; every denom must be covered) -/
+  initMin : Coins := [("stake", 100)]
+  initMinExp : Coins := [("stake", 200)]
+  /-- floor of every deposit, per denom: the min deposit times `MinDepositRatio`
+  (deposit.go:96-124; one denom reaching its floor is enough) -/
+  depMin : Coins := [("stake", 10)]
+  depMinExp : Coins := [("stake", 20)]
   depositPeriod : Nat := 100
   votingPeriod : Nat := 100
   expVotingPeriod : Nat := 50
@@ -183,9 +189,11 @@ structure Proposal where
   id : Nat
   msgs : List PMsg
   status : PStatus
-  total : Int
+  /-- `TotalDeposit`, one entry per deposit (meaning: `Coins.amountOf`) -/
+  total : Coins
   proposer : Addr
-  deposits : List (Addr × Int)
+  /-- the `Deposit` records: per depositor the merged coins (`sdk.Coins.Add`) -/
+  deposits : List (Addr × Coins)
   depositEnd : Nat
   votingStart : Nat
   votingEnd : Option Nat
@@ -218,17 +226,23 @@ structure State where
 
 /-! ### gov hooks of the sanction keeper (x/sanction/keeper/gov_hooks.go) -/
 
+/-- gov_hooks.go:84 `getImmediateMinDeposit`: the parameter for the kind of message -/
+def immediateMin (st : Store) (isSanction : Bool) : Coins := if isSanction then st.sancMin else st.unsancMin
+
+/-- gov_hooks.go:69-76: `!minDeposit.IsZero()` and `deposit.SafeSub(minDeposit...)` has no negative
+coin, i.e. EVERY denom of the minimum is reached by the total deposit. -/
+def reachesMin (total minDep : Coins) : Bool := !Coins.isZero minDep && Coins.covers total minDep
+
 /-- gov_hooks.go:64-90, one message of the proposal: if the total deposit covers the non-zero
 immediate minimum, add temporary entries; an error of `addTempEntries` is `panic(err)`. -/
-def hookMsg (c : Cfg) (total : Int) (id : Nat) (st : Store) (m : PMsg) : R Store :=
-  let minDep := if m.isSanction then st.sancMin else st.unsancMin
-  if !Coins.isZero minDep && Coins.covers [(c.bond, total)] minDep then
+def hookMsg (c : Cfg) (total : Coins) (id : Nat) (st : Store) (m : PMsg) : R Store :=
+  if reachesMin total (immediateMin st m.isSanction) then
     match addTempEntries c m.isSanction id st m.addrs with
     | .ok st' => .ok st'
     | .error _ => .error .panic
   else .ok st
 
-def hookMsgs (c : Cfg) (total : Int) (id : Nat) : Store → List PMsg → R Store
+def hookMsgs (c : Cfg) (total : Coins) (id : Nat) : Store → List PMsg → R Store
   | st, [] => .ok st
   | st, m :: rest =>
     match hookMsg c total id st m with
@@ -250,6 +264,14 @@ def proposalGovHook (c : Cfg) (st : Store) (prop : Option Proposal) (id : Nat) :
 def allPos (amt : Coins) : Bool := amt.all (fun c => decide (0 < c.2))
 /-- `Coins.IsValid() && IsAllPositive()` as far as the model needs it -/
 def validAmt (amt : Coins) : Bool := !amt.isEmpty && allPos amt
+
+def strictSorted : List Denom → Bool
+  | [] => true
+  | [_] => true
+  | a :: b :: rest => decide (a < b) && strictSorted (b :: rest)
+
+/-- `sdk.Coins.Validate` as far as the model needs it: positive amounts, strictly sorted denoms -/
+def coinsValid (cs : Coins) : Bool := allPos cs && strictSorted (Coins.denoms cs)
 
 def hasFunds (l : Ledger) (a : Addr) (amt : Coins) : Bool :=
   (Coins.denoms amt).all fun d => decide (Coins.amountOf amt d ≤ l.bal a d)
@@ -277,15 +299,34 @@ def inputOutputCoins (s : State) (frm : Addr) (tos : List Addr) (amt : Coins) : 
 
 /-! ### gov keeper -/
 
-def minDepositFor (c : Cfg) (exp : Bool) : Int := if exp then c.expMinDeposit else c.minDeposit
-def initMinFor (c : Cfg) (exp : Bool) : Int := if exp then c.initMinExp else c.initMin
-def depMinFor (c : Cfg) (exp : Bool) : Int := if exp then c.depMinExp else c.depMin
+def minDepositFor (c : Cfg) (exp : Bool) : Coins := if exp then c.expMinDeposit else c.minDeposit
+def initMinFor (c : Cfg) (exp : Bool) : Coins := if exp then c.initMinExp else c.initMin
+def depMinFor (c : Cfg) (exp : Bool) : Coins := if exp then c.depMinExp else c.depMin
 def onlyBond (c : Cfg) (amt : Coins) : Bool := amt.all (fun x => decide (x.1 = c.bond))
 
-def addDep (ds : List (Addr × Int)) (who : Addr) (a : Int) : List (Addr × Int) :=
+/-- deposit.go:317 `validateDepositDenom`: every denom of the deposit is a denom of `MinDeposit`
+(of the regular one, also for expedited proposals) -/
+def acceptedDenoms (c : Cfg) (amt : Coins) : Bool :=
+  amt.all (fun x => decide (x.1 ∈ Coins.denoms c.minDeposit))
+
+/-- deposit.go:96-124: some denom of the minimum is present in the deposit with at least its floor -/
+def ratioMet (floors amt : Coins) : Bool :=
+  floors.any (fun f => decide (0 < Coins.amountOf amt f.1) && decide (f.2 ≤ Coins.amountOf amt f.1))
+
+/-- `sdk.Coins.Add` of one coin into merged coins -/
+def addCoin (d : Denom) (x : Int) : Coins → Coins
+  | [] => [(d, x)]
+  | (d', y) :: rest => if d' = d then (d', y + x) :: rest else (d', y) :: addCoin d x rest
+
+/-- `sdk.Coins.Add`: one entry per denom -/
+def mergeCoins (a : Coins) : Coins → Coins
+  | [] => a
+  | (d, x) :: rest => mergeCoins (addCoin d x a) rest
+
+def addDep (ds : List (Addr × Coins)) (who : Addr) (a : Coins) : List (Addr × Coins) :=
   match ds with
-  | [] => [(who, a)]
-  | (w, x) :: rest => if w = who then (w, x + a) :: rest else (w, x) :: addDep rest who a
+  | [] => [(who, mergeCoins [] a)]
+  | (w, x) :: rest => if w = who then (w, mergeCoins x a) :: rest else (w, x) :: addDep rest who a
 
 /-- sdk:x/gov/keeper/proposal.go:237 `ActivateVotingPeriod` -/
 def activate (c : Cfg) (now : Nat) (p : Proposal) : Proposal :=
@@ -294,9 +335,9 @@ def activate (c : Cfg) (now : Nat) (p : Proposal) : Proposal :=
 
 /-- the proposal record after a deposit of `a` by `who` (deposit.go:134-160): total and
 deposit updated, voting period activated when the total reaches the minimum deposit. -/
-def depositedProp (c : Cfg) (now : Nat) (p : Proposal) (who : Addr) (a : Int) : Proposal :=
-  let p1 := { p with total := p.total + a, deposits := addDep p.deposits who a }
-  if p.status = .deposit ∧ minDepositFor c p.expedited ≤ p1.total then activate c now p1 else p1
+def depositedProp (c : Cfg) (now : Nat) (p : Proposal) (who : Addr) (a : Coins) : Proposal :=
+  let p1 := { p with total := p.total ++ a, deposits := addDep p.deposits who a }
+  if p.status = .deposit ∧ Coins.covers p1.total (minDepositFor c p.expedited) = true then activate c now p1 else p1
 
 /-- sdk:x/gov/keeper/deposit.go:66 `AddDeposit` (calls `AfterProposalDeposit`, :162) -/
 def addDeposit (s : State) (id : Nat) (who : Addr) (amt : Coins) : R State :=
@@ -304,19 +345,16 @@ def addDeposit (s : State) (id : Nat) (who : Addr) (amt : Coins) : R State :=
   | none => .error .notfound
   | some p =>
     if !p.active then .error .inactive
-    else if !onlyBond s.cfg amt then .error .denom
-    else if !(decide (0 < Coins.amountOf amt s.cfg.bond) &&
-              decide (depMinFor s.cfg p.expedited ≤ Coins.amountOf amt s.cfg.bond)) then .error .mindep
+    else if !acceptedDenoms s.cfg amt then .error .denom
+    else if !ratioMet (depMinFor s.cfg p.expedited) amt then .error .mindep
     else
       match sendCoins s who s.cfg.govAcct amt with
       | .error e => .error e
       | .ok s1 =>
-        match proposalGovHook s1.cfg s1.st
-            (some (depositedProp s.cfg s.now p who (Coins.amountOf amt s.cfg.bond))) id with
+        match proposalGovHook s1.cfg s1.st (some (depositedProp s.cfg s.now p who amt)) id with
         | .error e => .error e
         | .ok st =>
-          .ok { s1 with props := setProp s1.props (depositedProp s.cfg s.now p who (Coins.amountOf amt s.cfg.bond)),
-                        st := st }
+          .ok { s1 with props := setProp s1.props (depositedProp s.cfg s.now p who amt), st := st }
 
 /-- the per-message checks of `Keeper.SubmitProposal` (proposal.go:43-62): `ValidateBasic`
 (an empty address string is not bech32), then "the gov account is the only signer". -/
@@ -329,7 +367,7 @@ def validateMsgs : List PMsg → R Unit
 
 /-- `v1.NewProposal` (proposal.go:99): next id, deposit period, no deposit yet -/
 def newProposal (s : State) (who : Addr) (msgs : List PMsg) (exp : Bool) : Proposal :=
-  { id := s.nextId, msgs := msgs, status := .deposit, total := 0, proposer := who, deposits := [],
+  { id := s.nextId, msgs := msgs, status := .deposit, total := [], proposer := who, deposits := [],
     depositEnd := s.now + s.cfg.depositPeriod, votingStart := 0, votingEnd := none, expedited := exp,
     vote := none }
 
@@ -337,9 +375,9 @@ def newProposal (s : State) (who : Addr) (msgs : List PMsg) (exp : Bool) : Propo
 `Keeper.SubmitProposal` (proposal.go:19; hook `AfterProposalSubmission` at :117 sees a zero
 total deposit), then `AddDeposit` of the initial deposit. -/
 def submitProposal (s : State) (who : Addr) (msgs : List PMsg) (initial : Coins) (exp : Bool) : R State :=
-  if !allPos initial then .error .invalid
-  else if !decide (initMinFor s.cfg exp ≤ Coins.amountOf initial s.cfg.bond) then .error .mindep
-  else if !onlyBond s.cfg initial then .error .denom
+  if !coinsValid initial then .error .invalid
+  else if !Coins.covers initial (initMinFor s.cfg exp) then .error .mindep
+  else if !acceptedDenoms s.cfg initial then .error .denom
   else match validateMsgs msgs with
     | .error e => .error e
     | .ok () =>
@@ -359,29 +397,35 @@ def addVote (s : State) (id : Nat) (v : Vote) : R State :=
     else .error .inactive
 
 /-- `RefundAndDeleteDeposits` (deposit.go:262): module → depositor through `SendCoins` -/
-def refundAll (s : State) : List (Addr × Int) → R State
+def refundAll (s : State) : List (Addr × Coins) → R State
   | [] => .ok s
   | (d, a) :: rest =>
-    match sendCoins s s.cfg.govAcct d [(s.cfg.bond, a)] with
+    match sendCoins s s.cfg.govAcct d a with
     | .ok s1 => refundAll s1 rest
     | .error e => .error e
 
-def sumDeposits (ds : List (Addr × Int)) : Int := ds.foldl (fun acc x => acc + x.2) 0
+def sumDeposits : List (Addr × Coins) → Coins
+  | [] => []
+  | x :: rest => x.2 ++ sumDeposits rest
 
 /-- `BurnCoins(gov, …)`: no send restriction -/
-def burnFromGov (s : State) (a : Int) : State :=
-  { s with ledger := s.ledger.debit s.cfg.govAcct [(s.cfg.bond, a)] }
+def burnFromGov (s : State) (a : Coins) : State :=
+  { s with ledger := s.ledger.debit s.cfg.govAcct a }
 
-/-- `ChargeDeposit` (deposit.go:189): each depositor gets `amount − ⌊amount·rate⌋` back, the
-rest is burned (destination ""). Returns the state and the accumulated charges. -/
-def chargeDeposits (s : State) (charges : Int) : List (Addr × Int) → R (State × Int)
+/-- per coin `⌊amount·rate⌋` (deposit.go:205) -/
+def burnPart (c : Cfg) (a : Coins) : Coins := a.map fun x => (x.1, x.2 * (c.cancelNum : Int) / (c.cancelDen : Int))
+/-- per coin `amount − ⌊amount·rate⌋` (deposit.go:207-212) -/
+def remainingPart (c : Cfg) (a : Coins) : Coins :=
+  a.map fun x => (x.1, x.2 - x.2 * (c.cancelNum : Int) / (c.cancelDen : Int))
+
+/-- `ChargeDeposit` (deposit.go:189): each depositor gets, per coin, `amount − ⌊amount·rate⌋`
+back, the rest is burned (destination ""). Returns the state and the accumulated charges. -/
+def chargeDeposits (s : State) (charges : Coins) : List (Addr × Coins) → R (State × Coins)
   | [] => .ok (s, charges)
   | (d, a) :: rest =>
-    let burn := a * (s.cfg.cancelNum : Int) / (s.cfg.cancelDen : Int)
-    let remaining := a - burn
-    if remaining = 0 then chargeDeposits s (charges + burn) rest
-    else match sendCoins s s.cfg.govAcct d [(s.cfg.bond, remaining)] with
-      | .ok s1 => chargeDeposits s1 (charges + burn) rest
+    if Coins.isZero (remainingPart s.cfg a) then chargeDeposits s (charges ++ burnPart s.cfg a) rest
+    else match sendCoins s s.cfg.govAcct d (remainingPart s.cfg a) with
+      | .ok s1 => chargeDeposits s1 (charges ++ burnPart s.cfg a) rest
       | .error e => .error e
 
 /-- sdk:x/gov/keeper/proposal.go:135 `CancelProposal`.  **No gov hook is called.** -/
@@ -393,10 +437,10 @@ def cancelProposal (s : State) (who : Addr) (id : Nat) : R State :=
     else if !p.active then .error .inactive
     else if (match p.votingEnd with | some e => decide (e < s.now) | none => false) then .error .ended
     else
-      match chargeDeposits s 0 p.deposits with
+      match chargeDeposits s [] p.deposits with
       | .error e => .error e
       | .ok (s1, charges) =>
-        let s2 := if charges = 0 then s1 else burnFromGov s1 charges
+        let s2 := if Coins.isZero charges then s1 else burnFromGov s1 charges
         .ok { s2 with props := delProp s2.props id, cancelled := id :: s2.cancelled }
 
 /-- `Tally` (sdk:x/gov/keeper/tally.go:18) on a chain whose whole bonded stake is delegated by
@@ -424,7 +468,7 @@ def execMsgs (c : Cfg) : Store → List PMsg → R Store
     | .error e => .error e
 
 /-- refund (`RefundAndDeleteDeposits`) or burn (`DeleteAndBurnDeposits`) the deposits -/
-def settle (s : State) (burn : Bool) (ds : List (Addr × Int)) : R State :=
+def settle (s : State) (burn : Bool) (ds : List (Addr × Coins)) : R State :=
   if burn then .ok (burnFromGov s (sumDeposits ds)) else refundAll s ds
 
 /-- abci.go:27-95, one entry of the inactive queue: delete the proposal, refund or burn the
@@ -507,14 +551,6 @@ def endBlocker (s : State) : R State :=
   | .error e => .error e
   | .ok s1 => foldR tallyOne s1 (activeIds s1)
 
-def strictSorted : List Denom → Bool
-  | [] => true
-  | [_] => true
-  | a :: b :: rest => decide (a < b) && strictSorted (b :: rest)
-
-/-- `sdk.Coins.Validate` as far as the model needs it: positive amounts, strictly sorted denoms -/
-def coinsValid (cs : Coins) : Bool := allPos cs && strictSorted (Coins.denoms cs)
-
 /-- msg_server.go:58 `UpdateParams` (authority already checked by the caller of the model op) -/
 def updateParams (s : State) (sanc unsanc : Coins) : R State :=
   if !(coinsValid sanc && coinsValid unsanc) then .error .invalid
@@ -542,7 +578,7 @@ inductive Op where
 
 def applyOp (s : State) : Op → R State
   | .submit who msgs initial exp => submitProposal s who msgs initial exp
-  | .deposit who id amt => if !validAmt amt then .error .invalid else addDeposit s id who amt
+  | .deposit who id amt => if !(validAmt amt && coinsValid amt) then .error .invalid else addDeposit s id who amt
   | .vote id v => addVote s id v
   | .cancel who id => cancelProposal s who id
   | .block dt =>
